@@ -74,21 +74,24 @@ Theorem C01_expand_tree_groups :
 Proof. exact expand_tree_groups. Qed.
 Print Assumptions C01_expand_tree_groups.
 
-(* the tree level it rests on, for token trees with `*N` and groups as well: whenever the text
-   tokenizes and parses to a tree of bare fine names (written repeaters only) whose copy count
-   fits the budget, expand succeeds and the tag chunks nest to the unrolled preorder list
-   [nshape]: each unit contributes, once per copy and in order, its element at its depth followed
-   by its children one level deeper; a group contributes its contents at its own depth *)
+(* the tree level they rest on, independent of how names are tokenized: whenever the text
+   tokenizes and parses to a tree whose elements are bare literal names satisfying [name_sem]
+   (not empty, no '<', CR, LF, not starting with '/' or '!', not a snippet key, not `lorem...`),
+   with written repeaters only, and whose copy count fits the budget, expand succeeds and the tag
+   chunks nest to the unrolled preorder list [nshape]: each unit contributes, once per copy and in
+   order, its element at its depth followed by its children one level deeper; a group contributes
+   its contents at its own depth *)
 Theorem C01_expand_tree :
-  forall (x : xconfig) (s : str) (toks : list token) (root : list tnode),
+  forall (P : str -> bool) (x : xconfig) (s : str) (toks : list token) (root : list tnode),
+    (forall n, P n = true -> name_sem x n = true) ->
     cfg_ok x = true ->
     tokenize s = TOk toks -> parse (mc_jsx (xc_m x)) toks = POk root ->
-    forallb (named (name_fine x)) root = true ->
+    forallb (named P) root = true ->
     (total_list root <= budget_of (mc_max_repeat (xc_m x)))%Z ->
     exists st,
       expand_markup x s = Ok st /\
       nestT 0 (tags st) = map (fun p => (fst p, tag_name (xc_o x) (snd p))) (flat_map (nshape 0) root).
-Proof. exact expand_tree. Qed.
+Proof. exact expand_tree_P. Qed.
 Print Assumptions C01_expand_tree.
 
 (* non-vacuity: the default html configuration (built-in snippet table regenerated from the
